@@ -80,8 +80,9 @@ class C14Tracker(Harness):
     ]
 
     def configs(self, tier):
-        return [dict(setting=s, nf=n, source=src) for s in range(len(self.SETTINGS)) for n in (0, 1, 3)
-                for src in ("none", "callable") if not (src == "callable" and (n != 3 or s > 1))]
+        nfs = (0, 1, 3) if tier != "thorough" else (0, 1, 2, 3, 4, 5)
+        return [dict(setting=s, nf=n, source=src) for s in range(len(self.SETTINGS)) for n in nfs
+                for src in ("none", "callable") if not (src == "callable" and (n < 3 or (s > 1 and tier != "thorough")))]
 
     def sample(self, cfg, rng):
         w = dict(thr=F(rng.randint(100, 900), 1000), mr=F(rng.randint(0, 2000), 1000))
